@@ -99,6 +99,8 @@ type FS struct {
 	// dropped because identical to the tail of the queue.
 	EventsQueued, Coalesced int
 	MaxUserWatches          int // 0 = unlimited
+	MaxQueuedEvents         int // fs.inotify.max_queued_events (0 = unlimited)
+	EventsLost              int // events dropped because a queue was full
 	watchCount              int
 }
 
